@@ -300,3 +300,147 @@ Proof.
 Qed.
 
 End Dom.
+
+(* ------------------------------------------------------------------------------------------ *)
+(* C. the executable matcher returns spans that satisfy spans_ok                               *)
+
+Definition Pc (cs : list N) : nat := length (E cs).
+
+Lemma Pc_cons c r : Pc (c :: r) = clen c + Pc r.
+Proof. unfold Pc, clen. rewrite encode_chars_cons, app_length. reflexivity. Qed.
+
+Lemma Pc_app a b : Pc (a ++ b) = Pc a + Pc b.
+Proof. unfold Pc. rewrite encode_chars_app, app_length. reflexivity. Qed.
+
+Lemma clen_pos c : 0 < clen c.
+Proof. unfold clen. pose proof (encode_char_length c). lia. Qed.
+
+(* n is the byte length of a character prefix of cs *)
+Definition prefix_len (cs : list N) (n : nat) : Prop := exists m rest, cs = m ++ rest /\ n = Pc m.
+
+Lemma prefix_len_0 cs : prefix_len cs 0.
+Proof. exists [], cs. auto. Qed.
+
+Lemma prefix_len_cons c cs n : prefix_len cs n -> prefix_len (c :: cs) (clen c + n).
+Proof. intros (m & rest & -> & ->). exists (c :: m), rest. rewrite Pc_cons. auto. Qed.
+
+Lemma prefix_len_uncons c cs n : prefix_len (c :: cs) (S n) -> prefix_len cs (S n - clen c) /\ clen c <= S n.
+Proof.
+  intros (m & rest & Hcs & Hn). destruct m as [|c' m]; [discriminate|]. injection Hcs as <- ->.
+  rewrite Pc_cons in Hn. split; [|lia]. exists m, rest. split; [reflexivity | lia].
+Qed.
+
+Section MatcherFacts.
+Variables wna sna : N -> bool.
+
+Lemma word_run_split cs : forall n r, word_run wna cs = (n, r) -> exists m, cs = m ++ r /\ n = Pc m.
+Proof.
+  induction cs as [|c cs IH]; intros n r H; cbn [word_run] in H.
+  - injection H as <- <-. exists []. auto.
+  - destruct (N.eqb c 35 || is_word wna c).
+    + destruct (word_run wna cs) as [n' r'] eqn:Hw. injection H as <- <-.
+      destruct (IH _ _ eq_refl) as (m & -> & ->). exists (c :: m). rewrite Pc_cons. auto.
+    + injection H as <- <-. exists []. auto.
+Qed.
+
+Lemma skip_ws_split cs : forall n r, skip_ws sna cs = (n, r) -> exists m, cs = m ++ r /\ n = Pc m.
+Proof.
+  induction cs as [|c cs IH]; intros n r H; cbn [skip_ws] in H.
+  - injection H as <- <-. exists []. auto.
+  - destruct (is_space sna c).
+    + destruct (skip_ws sna cs) as [n' r'] eqn:Hw. injection H as <- <-.
+      destruct (IH _ _ eq_refl) as (m & -> & ->). exists (c :: m). rewrite Pc_cons. auto.
+    + injection H as <- <-. exists []. auto.
+Qed.
+
+Lemma clen_ascii c : (c < 128)%N -> clen c = 1.
+Proof. intros H. unfold clen. rewrite encode_char_ascii by exact H. reflexivity. Qed.
+
+Lemma tag_body_split cs : forall acc e, tag_body sna cs acc = Some e ->
+  exists n, e = acc + n /\ prefix_len cs n.
+Proof.
+  induction cs as [|c cs IH]; intros acc e H; cbn [tag_body] in H.
+  - destruct (skip_ws sna []) as [w r] eqn:Hw. cbn in Hw. injection Hw as <- <-. discriminate.
+  - destruct (skip_ws sna (c :: cs)) as [w r] eqn:Hw.
+    destruct (skip_ws_split _ _ _ Hw) as (mw & Hcs & ->).
+    destruct (match r with x :: _ => N.eqb x 62 | [] => false end) eqn:Hclose.
+    + injection H as <-. destruct r as [|x r']; [discriminate|]. apply N.eqb_eq in Hclose. subst x.
+      exists (Pc mw + 1). split; [lia|]. exists (mw ++ [62%N]), r'.
+      split; [rewrite Hcs, <- app_assoc; reflexivity|]. rewrite Pc_app, Pc_cons. reflexivity.
+    + destruct (N.eqb c 10); [discriminate|]. destruct (IH _ _ H) as (n & -> & Hn).
+      exists (clen c + n). split; [lia | apply prefix_len_cons, Hn].
+Qed.
+
+Lemma tag_from_split cs acc e : tag_from sna cs acc = Some e -> exists n, e = acc + n /\ prefix_len cs n.
+Proof.
+  unfold tag_from. destruct cs as [|c cs]; [discriminate|]. destruct (N.eqb c 10); [discriminate|].
+  intros H. destruct (tag_body_split _ _ _ H) as (n & -> & Hn).
+  exists (clen c + n). split; [lia | apply prefix_len_cons, Hn].
+Qed.
+
+Lemma tag_ws_split cs : forall acc e, tag_ws sna cs acc = Some e -> exists n, e = acc + n /\ prefix_len cs n.
+Proof.
+  induction cs as [|c cs IH]; intros acc e H; cbn [tag_ws] in H.
+  - apply tag_from_split, H.
+  - destruct (is_space sna c).
+    + destruct (tag_ws sna cs (acc + clen c)) as [e'|] eqn:Hrec.
+      * injection H as <-. destruct (IH _ _ Hrec) as (n & -> & Hn).
+        exists (clen c + n). split; [lia | apply prefix_len_cons, Hn].
+      * apply tag_from_split, H.
+    + apply tag_from_split, H.
+Qed.
+
+Lemma match_here_split cs n : match_here wna sna cs = Some n -> prefix_len cs n /\ 0 < n.
+Proof.
+  unfold match_here. destruct (match_entity wna cs) as [k|] eqn:He.
+  - intros H. injection H as <-. unfold match_entity in He. destruct cs as [|c r]; [discriminate|].
+    destruct (N.eqb c 38) eqn:Hc; [|discriminate]. apply N.eqb_eq in Hc. subst c.
+    destruct (word_run wna r) as [w r'] eqn:Hw. destruct (word_run_split _ _ _ Hw) as (m & -> & ->).
+    destruct (Pc m) as [|k'] eqn:Hk; [discriminate|]. destruct r' as [|c' r'']; [discriminate|].
+    destruct (N.eqb c' 59) eqn:Hc'; [|discriminate]. apply N.eqb_eq in Hc'. subst c'. injection He as <-.
+    split; [|lia]. exists (38%N :: m ++ [59%N]), r''. split; [cbn; rewrite <- app_assoc; reflexivity|].
+    rewrite Pc_cons, Pc_app, Pc_cons, Hk. reflexivity.
+  - unfold match_tag. destruct cs as [|c r]; [discriminate|].
+    destruct (N.eqb c 60) eqn:Hc; [|discriminate]. apply N.eqb_eq in Hc. subst c.
+    intros H. destruct (tag_ws_split _ _ _ H) as (k & -> & Hk). split; [|lia].
+    apply (prefix_len_cons 60%N) in Hk. exact Hk.
+Qed.
+
+Lemma spans_ok_mono s l p p' : spans_ok s l p -> p' <= p -> spans_ok s l p'.
+Proof. destruct l as [|[a b] r]; cbn [spans_ok]; [trivial | intuition lia]. Qed.
+
+Lemma scan_ok : forall cs pre skip, scalars (pre ++ cs) -> prefix_len cs skip ->
+  spans_ok (E (pre ++ cs)) (scan_spans wna sna cs (Pc pre) skip) (Pc pre + skip).
+Proof.
+  induction cs as [|c r IH]; intros pre skip Hs Hpl; [exact Logic.I|].
+  assert (Hs' : scalars ((pre ++ [c]) ++ r)) by (rewrite <- app_assoc; exact Hs).
+  assert (Heq : pre ++ c :: r = (pre ++ [c]) ++ r) by (rewrite <- app_assoc; reflexivity).
+  assert (HP : Pc pre + clen c = Pc (pre ++ [c])) by (rewrite Pc_app, Pc_cons; unfold Pc at 3; cbn; lia).
+  cbn [scan_spans]. destruct skip as [|k].
+  - destruct (match_here wna sna (c :: r)) as [n|] eqn:Hm.
+    + destruct (match_here_split _ _ Hm) as [Hpre Hpos].
+      destruct n as [|n]; [lia|]. pose proof Hpre as (m & rest & Hcs & Hn).
+      destruct (prefix_len_uncons _ _ _ Hpre) as [Hpl' Hle].
+      cbn [spans_ok]. split; [lia|]. split; [lia|].
+      assert (Hsr : scalars rest).
+      { rewrite Hcs in Hs. apply scalars_app in Hs as [_ Hs]. apply scalars_app in Hs as [_ Hs]. exact Hs. }
+      split; [|split; [|split]].
+      * fold (Pc (pre ++ c :: r)). rewrite Hcs, !Pc_app. lia.
+      * apply scalars_app in Hs as [_ Hs]. apply boundary_prefix, Hs.
+      * rewrite Hcs, app_assoc. replace (Pc pre + S n) with (length (E (pre ++ m))) by (fold (Pc (pre ++ m)); rewrite Pc_app; lia).
+        apply boundary_prefix, Hsr.
+      * rewrite HP, Heq. replace (Pc pre + S n) with (Pc (pre ++ [c]) + (S n - clen c)) by lia.
+        apply IH; assumption.
+    + rewrite HP, Heq. eapply spans_ok_mono; [apply (IH (pre ++ [c]) 0 Hs' (prefix_len_0 r)) | lia].
+  - destruct (prefix_len_uncons _ _ _ Hpl) as [Hpl' Hle].
+    rewrite HP, Heq. replace (Pc pre + S k) with (Pc (pre ++ [c]) + (S k - clen c)) by lia.
+    apply IH; assumption.
+Qed.
+
+Theorem excluded_spans_ok s : utf8_valid s = true -> spans_ok s (excluded_spans wna sna s) 0.
+Proof.
+  intros Hv. destruct (utf8_valid_decode s Hv) as [Hs He]. unfold excluded_spans.
+  rewrite <- He at 1. apply (scan_ok (decode_chars s) [] 0 Hs (prefix_len_0 _)).
+Qed.
+
+End MatcherFacts.
